@@ -199,7 +199,17 @@ func c15MethOK(m Sx) bool {
 func c15Consume(b buffer.Buffer, m Sx) Sx {
 	switch m.Nth(0).Z {
 	case 0:
+		released := false
+		defer func() {
+			if !released {
+				// GetSizeBytes panicked: the buffer is untouched, release it so
+				// that the other consumers of a clone are not left waiting
+				defer func() { recover() }()
+				b.Discard()
+			}
+		}()
 		n, err := b.GetSizeBytes()
+		released = true
 		b.Discard()
 		if err != nil {
 			return c15Err(err)
@@ -557,6 +567,9 @@ func c15GenProg(r *Rand, tier string) Sx {
 }
 
 func (c15) Gen(r *Rand, i int, tier string) Sx {
+	if i%5 == 4 {
+		return c15GenMux(r, tier)
+	}
 	return c15GenProg(r, tier)
 }
 
@@ -567,6 +580,8 @@ func (c15) Exec(in Sx) (Sx, bool) {
 	switch in.Nth(0).Z {
 	case 1:
 		return c15ExecProg(in)
+	case 2:
+		return c15ExecMux(in)
 	}
 	return Sx{}, false
 }
@@ -591,5 +606,237 @@ func (c15) Class(in, obs Sx) (string, bool) {
 		}
 		return "prog/" + c15KindNames[in.Nth(1).Z%6] + "/" + ops + "/" + c15MethNames[in.Nth(6).Nth(0).Z&7] + "/" + f, in.Nth(5).Len() >= 1
 	}
-	return "mux/" + strconv.Itoa(in.Nth(4).Int()), true
+	t := "eof"
+	if in.Nth(2).Z != 0 {
+		t = "error"
+	}
+	return "mux/" + strconv.Itoa(in.Nth(3).Len()) + "consumers/" + strconv.Itoa(in.Nth(1).Int()) + "chunks/" + t, true
+}
+
+// ---------------------------------------------------------------------------
+// M1: n consumers of one stream-cloned buffer under a chosen schedule
+//   (2 nchunks term progs sched), progs = ((reads disc csz) ...), sched = (cid ...)
+// observation: (closes terminated (got_0 ...) (got_1 ...) ...), items: chunk k -> k,
+// io.EOF -> -1, error code c -> -(1+c), panic -> -100
+// ---------------------------------------------------------------------------
+
+type c15Script struct {
+	chunks [][]byte
+	fin    error
+	pos    int
+	closes atomic.Int32
+}
+
+func (r *c15Script) Read() ([]byte, error) {
+	if r.pos < len(r.chunks) {
+		c := r.chunks[r.pos]
+		r.pos++
+		return c, nil
+	}
+	return nil, r.fin
+}
+func (r *c15Script) Close() { r.closes.Add(1) }
+
+type c15Consumer struct {
+	state atomic.Int32 // 0 idle, 1 running, 2 finished
+	grant chan struct{}
+	got   []int
+}
+
+func c15Item(chunk []byte, err error) int {
+	if err == io.EOF {
+		return -1
+	}
+	if err != nil {
+		return -(1 + c15Code(err))
+	}
+	if len(chunk) != 1 {
+		return -200 - len(chunk)
+	}
+	return int(chunk[0])
+}
+
+func c15ExecMux(in Sx) (Sx, bool) {
+	if in.Len() != 5 {
+		return Sx{}, false
+	}
+	nch, term, progs, sched := in.Nth(1), in.Nth(2), in.Nth(3), in.Nth(4)
+	if !nch.IsAtom || !term.IsAtom || nch.Z < 0 || nch.Z > 100 || term.Z < 0 || term.Z > 16 || progs.IsAtom || sched.IsAtom {
+		return Sx{}, false
+	}
+	n := progs.Len()
+	if n < 1 || n > 8 || sched.Len() > 2000 {
+		return Sx{}, false
+	}
+	for _, p := range progs.List {
+		if p.IsAtom || p.Len() != 3 || !p.Nth(0).IsAtom || !p.Nth(1).IsAtom || !p.Nth(2).IsAtom ||
+			p.Nth(0).Z < 0 || p.Nth(0).Z > 200 || p.Nth(1).Z < 0 || p.Nth(1).Z > 1 || p.Nth(2).Z < 1 || p.Nth(2).Z > 1000 {
+			return Sx{}, false
+		}
+	}
+	for _, e := range sched.List {
+		if !e.IsAtom || e.Z < 0 || e.Z >= int64(n) {
+			return Sx{}, false
+		}
+	}
+	// The multiplexer sits on the validated reader of the base buffer.  To
+	// make that reader produce "nchunks chunks, then the terminal" the raw
+	// source carries one more chunk when the terminal is an error (the
+	// validating reader withholds the chunk that completes the object).
+	raw := int(nch.Z)
+	var fin error = io.EOF
+	if term.Z != 0 {
+		raw++
+		fin = status.Error(codes.Code(term.Z), "source failure")
+	}
+	src := &c15Script{fin: fin}
+	var all []byte
+	for k := 0; k < raw; k++ {
+		src.chunks = append(src.chunks, []byte{byte(k)})
+		all = append(all, byte(k))
+	}
+	base := buffer.NewCASBufferFromChunkReader(c15Digest(all), src, buffer.BackendProvided(func(bool) {}))
+	handles := make([]buffer.Buffer, n)
+	if n == 1 {
+		handles[0] = base
+	} else {
+		b1, b2 := base.CloneStream()
+		handles[0] = b1
+		for i := 1; i < n-1; i++ {
+			handles[i], b2 = b2.CloneStream()
+		}
+		handles[n-1] = b2
+	}
+	cons := make([]*c15Consumer, n)
+	var wg sync.WaitGroup
+	for i := 0; i < n; i++ {
+		c := &c15Consumer{grant: make(chan struct{}, 1), got: []int{}}
+		cons[i] = c
+		reads, disc, csz := progs.Nth(i).Nth(0).Int(), progs.Nth(i).Nth(1).Z == 1, progs.Nth(i).Nth(2).Int()
+		h := handles[i]
+		wg.Add(1)
+		go func() {
+			defer wg.Done()
+			defer c.state.Store(2)
+			defer func() {
+				if r := recover(); r != nil {
+					c.got = append(c.got, -100)
+				}
+			}()
+			<-c.grant
+			if disc {
+				h.Discard()
+				return
+			}
+			r := h.ToChunkReader(0, csz)
+			for k := 0; k < reads; k++ {
+				c.state.Store(0)
+				<-c.grant
+				chunk, err := r.Read()
+				c.got = append(c.got, c15Item(chunk, err))
+			}
+			c.state.Store(0)
+			<-c.grant
+			r.Close()
+		}()
+	}
+	give := func(i int) {
+		c := cons[i]
+		if !c.state.CompareAndSwap(0, 1) {
+			return // parked inside the library, or finished
+		}
+		c.grant <- struct{}{}
+		for k := 0; k < 3000 && c.state.Load() == 1; k++ {
+			runtime.Gosched()
+		}
+	}
+	for _, e := range sched.List {
+		give(e.Int())
+	}
+	// drain: let everybody run to completion
+	done := make(chan struct{})
+	go func() { wg.Wait(); close(done) }()
+	terminated := 0
+	deadline := time.Now().Add(1500 * time.Millisecond)
+drain:
+	for {
+		for i := 0; i < n; i++ {
+			give(i)
+		}
+		select {
+		case <-done:
+			terminated = 1
+			break drain
+		default:
+		}
+		if time.Now().After(deadline) {
+			break
+		}
+	}
+	out := []Sx{AI(int(src.closes.Load())), AI(terminated)}
+	for i := 0; i < n; i++ {
+		if terminated == 1 {
+			out = append(out, LInts(cons[i].got))
+		} else {
+			out = append(out, L())
+		}
+	}
+	return L(out...), true
+}
+
+func c15GenMux(r *Rand, tier string) Sx {
+	n := 2 + r.Intn(3)
+	if tier == "thorough" && r.Chance(20) {
+		n = 2 + r.Intn(5)
+	}
+	nch := r.Intn(5)
+	term := r.Pick([]int{0, 0, 0, 5, 14})
+	progs := []Sx{}
+	total := 0
+	for i := 0; i < n; i++ {
+		reads := r.Intn(nch + 3)
+		if r.Chance(40) {
+			reads = nch + 1
+		}
+		disc := 0
+		if r.Chance(20) {
+			disc = 1
+		}
+		progs = append(progs, L(AI(reads), AI(disc), AI(r.Pick([]int{1, 2, 100}))))
+		total += reads + 2
+	}
+	sched := []int{}
+	switch r.Intn(4) {
+	case 0: // uniform
+		for k := 0; k < 2*total; k++ {
+			sched = append(sched, r.Intn(n))
+		}
+	case 1: // hold one consumer back as long as possible
+		held := r.Intn(n)
+		for k := 0; k < 2*total; k++ {
+			c := r.Intn(n)
+			if c == held {
+				c = (c + 1) % n
+			}
+			sched = append(sched, c)
+		}
+	case 2: // priorities with change points
+		prio := r.Intn(n)
+		for k := 0; k < 2*total; k++ {
+			if r.Chance(15) {
+				prio = r.Intn(n)
+			}
+			if r.Chance(70) {
+				sched = append(sched, prio)
+			} else {
+				sched = append(sched, r.Intn(n))
+			}
+		}
+	default: // round robin prefix of random length, then the drain
+		l := r.Intn(total + 1)
+		for k := 0; k < l; k++ {
+			sched = append(sched, k%n)
+		}
+	}
+	return L(A(2), AI(nch), AI(term), L(progs...), LInts(sched))
 }
